@@ -86,7 +86,9 @@ func familyDiscovery(t *testing.T) {
 				case "refused":
 					return 0, "", o.dur, true
 				case "5xx":
-					return 503, "unavailable", o.dur, false
+					// (a failing status is a failing status to the middleware: server errors, and the client errors a proxy, a WAF or a
+					// provider that is still being deployed answers with)
+					return []int{503, 404, 500, 403, 502, 401, 429, 400, 504, 410}[i%10], "unavailable", o.dur, false
 				case "malformed":
 					return 200, "{not json", o.dur, false
 				case "empty200":
